@@ -22,15 +22,15 @@ HARNESSES = [
     dict(name="tc", pkg="pkg/object/trafficcontroller", files=["harness/trafficcontroller/zz_verif_c11_test.go"],
          run="TestVerifC11TC", groups=["tc"], timeout=300, share=0.2),
     dict(name="mux", pkg="pkg/object/httpserver", files=["harness/httpserver/zz_verif_c11_test.go"],
-         run="TestVerifC11Mux", groups=["sched", "conc"], timeout=600, share=0.3),
+         run="TestVerifC11Mux", groups=["sched", "conc"], timeout=900, share=0.3, race=True),
 ]
 GROUPS = {"rlf": "(check_rlf pinned)", "inh": "(check_inh pinned)", "pipe": "(check_pipe pinned)",
           "tc": "(check_tc pinned)", "sched": "(check_sched pinned)", "conc": "(check_conc pinned)"}
 EXPLAIN = {"rlf": "explain_rlf pinned", "inh": "explain_inh", "pipe": "explain_pipe pinned",
            "tc": "explain_tc", "sched": "explain_sched", "conc": "explain_conc"}
-CASES = {"quick": 300, "thorough": 6000}
+CASES = {"quick": 900, "thorough": 6000}
 RULE = ("cases: rlf = RateLimiter filter Init/Inherit/Handle histories incl. requests on superseded generations; "
-        "inh = the same for 12 further filter kinds with a never-inherited twin; pipe = Pipeline.Init/Inherit/Handle with "
+        "inh = the same for 13 further filter kinds with a never-inherited twin; pipe = Pipeline.Init/Inherit/Handle with "
         "lifecycle-recording + real filters incl. kind changes; tc = TrafficController op sequences over 2 namespaces; "
         "sched = one request with reloads placed inside it (before load / in GetHandler / in body read / in handler / after); "
         "conc = concurrent clients vs reloads. non-trivial = case ran (spec accepted); class bits: rlf +1 inherit +2 limited "
@@ -40,7 +40,7 @@ RULE = ("cases: rlf = RateLimiter filter Init/Inherit/Handle histories incl. req
         "distinct = distinct (group, input) hashes among non-trivial cases")
 TRUSTED_BASE = [
     "model coq/model/Reload.v (+ RL.v for the RateLimiter filter) is hand-written; tied to pkg/object/httpserver, "
-    "pkg/object/pipeline, pkg/object/trafficcontroller and 13 filter kinds by the per-run correspondence (sampled)",
+    "pkg/object/pipeline, pkg/object/trafficcontroller and 14 filter kinds by the per-run correspondence (sampled)",
     "the step granularity of the request/reload transition system (LoadInst, Search, GetHandler, Rewrite, XFF, Limit, Handle "
     "vs StoreInst) is validated by placing real reloads at those points of a real request (grp sched) and by concurrent "
     "sampling (grp conc); it is not proved about Go",
@@ -105,7 +105,7 @@ def _enc_rlf(i, o):
 
 
 _KINDS = ["Proxy", "Validator", "RequestAdaptor", "ResponseAdaptor", "Mock", "Fallback", "CORSAdaptor",
-          "HeaderToJSON", "RequestBuilder", "ResponseBuilder", "CertExtractor", "MeshAdaptor"]
+          "HeaderToJSON", "RequestBuilder", "ResponseBuilder", "CertExtractor", "MeshAdaptor", "HeaderLookup"]
 
 
 def _outcome(x):
@@ -225,12 +225,14 @@ def _req(rid, rq, xff_on):
 
 
 def _enc_sched(i, o):
-    bad = bool(o.get("bad")) or len(o.get("fired") or []) != len(i.get("reloads") or [])
+    bad = bool(o.get("bad")) or len(o.get("fired") or []) != len(i.get("reloads") or []) or \
+        sorted(o.get("order") or []) != list(range(len(i.get("reloads") or [])))
     if bad:
         return ("{| sc_gens := []; sc_req := req0; sc_follow := req0; sc_reloads := []; sc_got := resp0; sc_gotf := resp0; "
                 "sc_expect := []; sc_expectf := []; sc_bad := true |}")
     gens = [_gen(s, [(0, o["comp"][k]), (1, o["compFollow"][k])]) for k, s in enumerate(i["specs"])]
-    rel = [T(Z(p), Nat(r["spec"])) for p, r in zip(o["fired"] or [], i["reloads"] or [])]
+    fired, rls = o["fired"] or [], i["reloads"] or []
+    rel = [T(Z(fired[k]), Nat(rls[k]["spec"])) for k in (o.get("order") or [])]   # in the order in which they really ran
     return Rec(sc_gens=L(gens), sc_req=_req(0, i["req"], o["xffOn"]), sc_follow=_req(1, i["follow"], o["xffOnFollow"]),
                sc_reloads=L(rel), sc_got=_resp(o["got"]), sc_gotf=_resp(o["follow"]),
                sc_expect=L([_resp(t) for t in o["expect"]]), sc_expectf=L([_resp(t) for t in o["expectFollow"]]),
